@@ -1484,6 +1484,7 @@ func c19HttpCtx(r *Run) {
 // c19Clean places the idle cleaner's tick before, during and after a delivery, under a fake clock.
 func c19Clean(r *Run) {
 	c19HttpStuckWriteTimesOut(r)
+	c19HttpRefused(r)
 	hooks.Reset(true)
 	defer hooks.Reset(false)
 	rng := r.Rand("c19.clean")
